@@ -426,10 +426,12 @@ func (c *ClusterInfo) syncSecureServingConfigLocked(newSecureServing proxyv1alph
 	if !apiequality.Semantic.DeepEqual(oldSecureServing.KeyData, newSecureServing.KeyData) ||
 		!apiequality.Semantic.DeepEqual(oldSecureServing.CertData, newSecureServing.CertData) {
 		// key or cert changed
-		if len(newSecureServing.KeyData) == 0 && len(newSecureServing.CertData) == 0 {
+		if len(newSecureServing.KeyData) == 0 || len(newSecureServing.CertData) == 0 {
+			// a serving certificate needs both key and cert, the previous one must
+			// not be kept when either of them is removed
 			klog.Infof("[cluster info] cluster=%q cleanup key and cert", c.Cluster)
 			newCfg.certs = nil
-		} else if len(newSecureServing.KeyData) > 0 && len(newSecureServing.CertData) > 0 {
+		} else {
 			cert, err := tls.X509KeyPair(newSecureServing.CertData, newSecureServing.KeyData)
 			if err != nil {
 				return fmt.Errorf("invalid serving cert keypair: %v", err)
